@@ -397,7 +397,7 @@ pub fn shrinks(sc: &Scenario, names: &[&str]) -> Vec<Scenario> {
         let mut c = sc.clone();
         c.whmask = 0;
         out.push(c);
-        for b in 0..4 {
+        for b in 0..5 {
             if sc.whmask & (1 << b) != 0 && sc.whmask != (1 << b) {
                 let mut c = sc.clone();
                 c.whmask &= !(1 << b);
